@@ -39,11 +39,11 @@ def parse_model_result(s):
     return dict(kind=s)
 
 
-def agree(ir, mr, payload, variant):
+def agree(ir, mr, payload, variant, plain=False):
     """Does the implementation's result ir (parsed) agree with the model's mr?  Returns None or a description."""
     k = ir['kind']
-    if k == 'L':
-        if mr['kind'] == 'F' or len(mr.get('reds', [])) > LIMIT:
+    if k == 'L' or (plain and mr['kind'] == 'F'):
+        if plain or mr['kind'] == 'F' or len(mr.get('reds', [])) > LIMIT:
             return None
         return 'implementation exceeded the reduction limit, model says %s' % mr
     if mr['kind'] == 'F':
@@ -51,7 +51,7 @@ def agree(ir, mr, payload, variant):
     if k == 'A':
         if mr['kind'] != 'A':
             return 'implementation accepts (%s), model says %s' % (ir['raw'], mr)
-        if ir['reds'] != mr['reds']:
+        if not plain and ir['reds'] != mr['reds']:
             return 'reductions differ: impl %s model %s' % (ir['reds'], mr['reds'])
         if str(ir['value']) != str(mr['value']):
             return 'value differs: impl %s model %s' % (ir['value'], mr['value'])
@@ -59,7 +59,7 @@ def agree(ir, mr, payload, variant):
     if (k == 'E' and ir['msg'].startswith('Grammar error')) or (k == 'N' and variant == 'ts' and 'Grammer error' in ir['msg']):
         if mr['kind'] != 'R':
             return 'implementation reports a syntax error (%s), model says %s' % (ir['raw'], mr)
-        if ir['reds'] != mr['reds']:
+        if not plain and ir['reds'] != mr['reds']:
             return 'reductions before the error differ: impl %s model %s' % (ir['reds'], mr['reds'])
         if ir['fetched'] != mr['pos'] + 1:
             return 'tokens requested at the error: impl %d model %d' % (ir['fetched'], mr['pos'] + 1)
@@ -122,7 +122,7 @@ def run(name, grammars, jobs, variants=genrun.ALL_VARIANTS, **kw):
             if out['gen'][gname].get(vn, {}).get('rc') != 0:
                 continue
             for (mode, payload) in jobs.get(gname, []):
-                if mode == 'nest' or (vn == 'ts' and mode == 'trace'):
+                if mode in ('nest', 'nestr') or (vn == 'ts' and mode == 'trace'):
                     continue
                 raw = out['res'][gname][vn].get((mode, payload))
                 ms = model.get((gname, vn, mode, payload))
@@ -136,7 +136,7 @@ def run(name, grammars, jobs, variants=genrun.ALL_VARIANTS, **kw):
                 else:
                     irs, mrs, parts = [genrun.parse_result(raw)], [parse_model_result(ms)], [payload]
                 for ir, mr, p in zip(irs, mrs, parts):
-                    w = agree(ir, mr, p, vn)
+                    w = agree(ir, mr, p, vn, plain=bool(g.get('plain_actions')))
                     if w:
                         diffs.append(dict(grammar=gname, variant=vn, mode=mode, payload=payload, part=p, impl=raw, model=ms, what=w))
                         break
